@@ -221,12 +221,7 @@ Definition oracle_step (ct : ctable) (nd : nat) (pre post : graph) (xo : xop) (o
            if is_inplace_mutation o
            then (if unchanged then 0 else 64)
            else if is_cow_call o && negb unchanged then 64
-           else match o, recv with
-                | OpHelper _ _ h, Some x =>
-                    if negb failed && h_if h && negb (h_inplace h)
-                       && val_syn_eqb (root_val post nroots) (root_val post x)
-                    then 64 else 0
-                | _, _ => 0 end
+           else 0
          else 0)
   end.
 
